@@ -283,6 +283,16 @@ pub fn gen_world(rng: &mut Rng, o: &GenOpts) -> CliWorld {
       }
     }
   }
+  // randomly generated rule trees with inter-dependent local utilities
+  let mut gen_n = 0;
+  for l in &langs {
+    if matches!(*l, "TypeScript" | "JavaScript") && rng.chance(0.6) {
+      for _ in 0..rng.range(1, 3) {
+        specs.push(rules::gen_random_rule(rng, l, gen_n));
+        gen_n += 1;
+      }
+    }
+  }
   // distribute over rule dirs / files
   let ndirs = rng.range(1, 3);
   let mut rule_dirs: Vec<RuleDir> = (0..ndirs).map(|i| RuleDir { name: format!("rules{i}"), files: vec![] }).collect();
